@@ -63,6 +63,8 @@ impl<T: ?Sized> Drop for MessageBorrow<'_, T> {
                 .with_mut(|p| *p = MessageBox::Vacated(recycle_box));
         }
 
+        #[cfg(feature = "verif-hooks")]
+        crate::verif_hooks::probe(crate::verif_hooks::site::QUEUE_RELEASE_BEFORE_STAMP, self.index);
         // Mark the slot as empty.
         slot.stamp.store(self.stamp, Ordering::Release);
     }
@@ -197,6 +199,8 @@ impl<T: ?Sized> Queue<T> {
                         Ordering::Relaxed,
                     ) {
                         Ok(_) => {
+                            #[cfg(feature = "verif-hooks")]
+                            crate::verif_hooks::probe(crate::verif_hooks::site::QUEUE_PUSH_CLAIMED, enqueue_pos);
                             // Write the closure into the slot and update the stamp.
                             unsafe {
                                 slot.message.with_mut(|msg_fn_box| {
@@ -209,6 +213,8 @@ impl<T: ?Sized> Queue<T> {
                                     *msg_fn_box = MessageBox::Populated(msg_fn(vacated_box))
                                 });
                             };
+                            #[cfg(feature = "verif-hooks")]
+                            crate::verif_hooks::probe(crate::verif_hooks::site::QUEUE_PUSH_WRITTEN, enqueue_pos);
                             slot.stamp.store(stamp.wrapping_add(1), Ordering::Release);
 
                             return Ok(());
@@ -255,6 +261,8 @@ impl<T: ?Sized> Queue<T> {
             // need to increment the position atomically with a `fetch_add`.
             self.dequeue_pos
                 .store(self.next_queue_pos(dequeue_pos), Ordering::Relaxed);
+            #[cfg(feature = "verif-hooks")]
+            crate::verif_hooks::probe(crate::verif_hooks::site::QUEUE_POP_CLAIMED, dequeue_pos);
 
             // Extract the closure from the slot and set the stamp to the value of
             // the dequeue position increased by one sequence increment.
